@@ -308,11 +308,54 @@ _AX_CACHE = {}      # expr id -> (expr kept alive, facts): instantiated backgrou
 _SIMP_CACHE = {}
 
 
+def _resolve_lookups(e):
+    """lookup(assoc_set(l, k, v), k') with syntactically decidable keys is rewritten by the definition of dict stores (k' == k: v; k' and k distinct
+    constants: lookup(l, k')), bottom-up, so that chains of stores into nested dictionaries become visible to the syntactic lemma instantiation"""
+    cache = {}
+
+    def go(t):
+        key = t.get_id()
+        if key in cache:
+            return cache[key]
+        if not z3.is_app(t) or t.num_args() == 0:
+            cache[key] = t
+            return t
+        kids = [go(c) for c in t.children()]
+        r = t
+        if any(not a.eq(b) for a, b in zip(kids, t.children())):
+            r = t.decl()(*kids)
+        if z3.is_app(r) and r.num_args() == 1 and z3.is_app(r.arg(0)) and r.arg(0).num_args() == 1 and \
+                (r.decl().name(), r.arg(0).decl().name()) in (('ditems', 'Dict'), ('items', 'List'), ('titems', 'Tuple'), ('sitems', 'Set')):
+            r = r.arg(0).arg(0)          # accessor of its own constructor
+        if z3.is_app(r) and r.decl().name() == 'lookup':
+            l, k = r.arg(0), r.arg(1)
+            while z3.is_app(l) and l.decl().name() == 'assoc_set':
+                same = z3.simplify(l.arg(1) == k)
+                if z3.is_true(same):
+                    r = l.arg(2); break
+                if z3.is_false(same):
+                    l = l.arg(0)
+                    r = lookup(l, k)
+                    continue
+                break
+        cache[key] = r
+        return r
+    try:
+        return go(e)
+    except z3.Z3Exception:
+        return e
+
+
 def simp(e):
     k = e.get_id()
     hit = _SIMP_CACHE.get(k)
     if hit is None:
-        hit = (e, z3.simplify(e))
+        r = z3.simplify(e)
+        if not _has_quantifier(r):
+            r2 = _resolve_lookups(r)
+            if not r2.eq(r):
+                r = z3.simplify(r2)
+        hit = (e, r)
         _SIMP_CACHE[k] = hit
     return hit[1]
 
